@@ -21,6 +21,7 @@
  *                                the prior state continues with the next candidate
  */
 #define _GNU_SOURCE
+#include "vh_limits.h"
 #include "src/common.h"
 #include "vh_json.h"
 #include <sys/mman.h>
@@ -380,7 +381,7 @@ static const char *status_text(int st, char *buf)
         if (WEXITSTATUS(st) == 0) return "ok";
         sprintf(buf, "exit%d", WEXITSTATUS(st));
     } else if (WIFSIGNALED(st)) {
-        if (WTERMSIG(st) == SIGALRM) return "timeout";
+        if (VH_IS_TIMEOUT_SIGNAL(WTERMSIG(st))) return "timeout";
         sprintf(buf, "sig%d", WTERMSIG(st));
     } else
         strcpy(buf, "unknown");
@@ -409,7 +410,7 @@ static void do_expand(struct ev *hist, int nh, struct ev *cand, int nc)
     c = fork();
     if (c == 0) {
         dup2(herr, 2);
-        alarm(20);
+        vh_alarm(20);
         memset(&extra, 0, sizeof(extra));
         char_vector_append_string(&line, "{\"h\":1,\"rcs\":[");
         for (k = 0; k < nh; ++k) {
@@ -436,7 +437,7 @@ static void do_expand(struct ev *hist, int nh, struct ev *cand, int nc)
                 int rc, twice = 0;
                 char *d;
                 dup2(efd, 2);
-                alarm(10);
+                vh_alarm(10);
                 hooklog.used = 0; hook_count = 0;
                 memset(&extra, 0, sizeof(extra));
                 if (cand[k].kind == 'D')
@@ -596,9 +597,9 @@ static void do_sweep(struct ev *hist, int nh, struct source *src, int report_ok)
                     shm->idx = i;
                     if (!cand_get(src, i, &cand)) break;
                     hooklog.used = 0; hook_count = 0;
-                    alarm(10);
+                    vh_alarm(10);
                     rc = do_load(cand.vec, cand.used);
-                    alarm(0);
+                    vh_alarm(0);
                     if (rc <= 0 && rc > -8) shm->rc_hist[-rc]++;
                     if (rc == 0) {
                         after = dump_tree();    /* walks every pointer of the merged tree (ASan) */
@@ -691,7 +692,7 @@ static void do_sweep(struct ev *hist, int nh, struct source *src, int report_ok)
                     if (f == 0) {
                         char *d;
                         cand_get(src, i, &cand);
-                        alarm(10);
+                        vh_alarm(10);
                         do_load(cand.vec, cand.used);
                         d = dump_tree();
                         shm->ref_hash = fnv(d);
